@@ -872,3 +872,66 @@ def replacement_cases(rng, n, inplace_values=(False,), flavour=None, inplace_top
             h.add(("helper", x, (kind, aid), hargs), ("inst", cid), fail_at)
         out.append({"table": table, "ops": h.ops, "nd": len(heap0)})
     return out
+
+
+# ---------------------------------------------------------------------------
+# Aimed cases: a copy-on-write element helper (`with_<item>`, no `_inplace`) on a receiver
+# whose collection attribute is EMPTY (control: one element), with a user callback of the
+# CLOSING step of the call raising -- `__post_copy__` of the receiver while it is copied, the
+# default factory / preparer of an `invalidated_by` dependant while it is reset on the copy.
+# The element has been added to the working collection by then; that collection must be a
+# private copy also when the receiver's container is empty.  (The random histories and
+# `element_cases` start from containers with 1..3 elements; a callback fails in 10 % only and
+# mostly in front of the write.)
+def empty_container_cases(rng, n, flavour=None, control=0.15):
+    from inst_common import resolve_table
+    out = []
+    guard = 0
+    while len(out) < n and guard < 20 * n:
+        guard += 1
+        table = gen_table(rng, flavour)
+        k2 = table[1]
+        if k2.get("frozen"):
+            continue
+        fam = rng.choice(["list", "set", "dict", "list_k1", "dict_k1"])
+        aid = {"list": 50, "set": 52, "dict": 51, "list_k1": 53, "dict_k1": 54}[fam]
+        by_aid = {a["aid"]: a for a in k2["attrs"]}
+        k2["post_copy"] = ("id",)                   # the receiver's copy hook: runs after the element was added
+        if rng.random() < 0.7:                      # mostly no item preparer: the hook is the 1st callback invocation
+            by_aid[aid]["prepare_item"] = None
+        if aid != 52 and flavour is None and rng.random() < 0.4:
+            # exactly one dependant of the written collection, reset through a default factory (+ preparer)
+            by_aid[52].update(default=None, factory=("set", []), inv_by=[aid], decl="Attr",
+                              prepare=rng.choice([None, ("id",)]))
+            by_aid[3]["inv_by"] = []
+        _, heap0 = resolve_table(table)
+        h = Hist(rng, table, len(heap0))
+        cid = rng.choice([2, 2, 3])
+        empty = rng.random() >= control
+        if fam in ("list", "set"):
+            coll = h.alloc((fam, [] if empty else [V(1)]))
+        elif fam == "dict":
+            coll = h.alloc(("dict", [] if empty else [(S(8), V(1))]))
+        elif fam == "list_k1":
+            coll = h.alloc(("list", [] if empty else [h.new_k1()]))
+        else:
+            coll = h.alloc(("dict", [] if empty else [(S(8), h.new_k1())]))
+        x = h.add(("construct", cid, None, [(aid, coll), (1, V(1))]), ("inst", cid))
+        hargs = {"inplace": False, "if_": True}
+        if fam == "list":
+            hargs["pos"] = [V(5)]
+            if rng.random() < 0.3:
+                hargs["index"] = V(0)
+                hargs["insert"] = True
+        elif fam == "set":
+            hargs["pos"] = [V(5)]
+        elif fam == "dict":
+            hargs["pos"] = [S(7), V(5)]
+        else:
+            hargs["pos"] = [h.new_k1()] if fam == "list_k1" else [S(7), h.new_k1()]
+            if rng.random() < 0.4:
+                hargs["kw"] = [(1, V(rng.choice([3, 4])))]
+        fail_at = rng.choice([1, 1, 2, 3]) if rng.random() < 0.85 else None
+        h.add(("helper", x, ("with_item", aid), hargs), ("inst", cid), fail_at)
+        out.append({"table": table, "ops": h.ops, "nd": len(heap0)})
+    return out
